@@ -12,6 +12,7 @@ Local Open Scope list_scope.
 Section P6.
   Variable V : Type.
   Variable bin : binop -> V -> V -> V.
+  Variable un : unop -> V -> V.
   Notation snode := (snode V).
   Notation pspec := (pspec V).
   Notation node := (node V).
@@ -33,7 +34,7 @@ Section P6.
 
   Lemma ok2_pre (m : snode) : dict_node_ok2 m = true -> dict_pre V cf m = None /\ as_instance V cf m = false.
   Proof.
-    destruct m as [p sp|v|items|[cls ctor| |idx|o|cls ctor] ch asr]; simpl; intro H; try (split; reflexivity).
+    destruct m as [p sp|v|items|[cls ctor| |idx|o|uo|cls ctor] ch asr]; simpl; intro H; try (split; reflexivity).
     apply negb_true_iff in H. unfold dict_pre, as_instance. rewrite H. split; reflexivity.
   Qed.
 
@@ -64,7 +65,7 @@ Section P6.
         { intro b'. unfold ech, pchmap, cn_attrs, ren_attrs. rewrite !map_map. apply map_ext_in. intros [nm c] Hin. simpl.
           rewrite Forall_forall in IH. rewrite forallb_forall in Qc.
           pose proof (IH _ Hin (Qc _ Hin) b') as E0. simpl in E0. rewrite E0. reflexivity. }
-        destruct k as [cls ctor| |idx|o|cls ctor].
+        destruct k as [cls ctor| |idx|o|uo|cls ctor].
         + (* Model with free parameters *)
           cbn [dict_node_ok2] in Qn. apply negb_true_iff in Qn. cbn [dict_post]. rewrite Qn.
           cbn [erase]. rewrite !erase_children, E. cbn [ren cn]. rewrite ren_attrs_eq, cn_attrs_eq. reflexivity.
@@ -84,6 +85,9 @@ Section P6.
             cbn [pchmap map fst snd]. rewrite dict_post_bin.
             cbn [erase ren cn]. rewrite (Hl Ql false), (Hr Qr false). reflexivity.
           * destruct x as [xn xc]. reflexivity.
+        + (* unary form: the operand's attribute name is written ("name") and read back *)
+          unfold dict_post, rebuild_same. cbn [erase]. rewrite !erase_children, E.
+          destruct (ech V false ch) as [|[nm c] [|x t]]; reflexivity.
         + unfold dict_post, rebuild_same. cbn [erase]. rewrite !erase_children, E. cbn [ren cn].
           rewrite ren_attrs_eq, cn_attrs_eq. reflexivity.
     Qed.
@@ -91,7 +95,8 @@ Section P6.
 
   Lemma wf_ren (s : nat -> nat) (n : node) : wf V n -> wf V (ren V s n).
   Proof.
-    induction n as [q|c|ms IH|o ln rn l r IHl IHr|cls ctor attrs IH|attrs IH] using (node_ind' V); intro W.
+    induction n as [q|c|ms IH|o ln rn l r IHl IHr|uo unm uc IHc|cls ctor attrs IH|attrs IH] using (node_ind' V); intro W;
+      [| | | |exact (IHc W)| |].
     - exact I.
     - exact I.
     - cbn [ren wf]. rewrite ren_members_eq. destruct W as [ND W]. split.
@@ -116,7 +121,7 @@ Section P6.
     forall_nodes V dict_node_ok2 n = true -> all_occs V (occ_ok V cf) n = true -> wf V (tree V n) ->
     exists n' s, dict_rt V falsy cf n = Ok n' /\ inj_on s (node_ids V n) /\
                  prior_count V (tree V n') = prior_count V (tree V n) /\
-                 forall a : nat -> option V, inst V bin a (tree V n') = inst V bin (fun q => a (s q)) (tree V n).
+                 forall a : nat -> option V, inst V bin un a (tree V n') = inst V bin un (fun q => a (s q)) (tree V n).
   Proof.
     intros HQ HR W.
     assert (HQ' : forall_nodes V (fun m => match dict_pre V cf m with None => true | Some _ => false end) n = true).
@@ -145,7 +150,7 @@ Section P6.
     unfold tree. rewrite (erase_dict_image (look V st') (sigma_of V st') Hs n HQ false).
     assert (W' : wf V (ren V (sigma_of V st') (erase V false n))) by (apply wf_ren; exact W).
     split.
-    - destruct (vector_cn V bin _ [] W') as [_ [Ec _]]. rewrite Ec. apply prior_count_ren.
+    - destruct (vector_cn V bin un _ [] W') as [_ [Ec _]]. rewrite Ec. apply prior_count_ren.
       intros a b Ha Hb. apply Hi; apply (erase_ids_incl V n false); assumption.
     - intro a. rewrite inst_cn. apply inst_ren.
   Qed.
